@@ -187,3 +187,107 @@ Definition xstrictly_inside_b (x : xinput) : bool :=
 
 Definition xspec_b (x : xinput) (v : verdict) : bool :=
   xsound_b x v && (negb (xstrictly_inside_b x) || match v with Reject => false | Accept _ => true end).
+
+(* ====================================================================================================
+   The property over a DECORATED message (Model.dinput: every confirmation has a method, its data may name an Address
+   and carry a KeyInfo; the application may name the peer).  Written from the property text; the decorations appear in
+   it only as far as the text speaks of them:
+     - soundness: as [xsound], where "a bearer confirmation whose window holds now" is asked of the confirmations
+       whose method IS bearer (the property does not speak about the windows of holder-of-key / sender-vouches
+       confirmations: one of those may confirm the subject in place of a bearer one; an unknown method confirms
+       nothing), AND read literally: no identity while the current time is outside the bounds (plus skew) of ANY bearer
+       SubjectConfirmationData — whatever Address, KeyInfo or neighbours it has.  Address, KeyInfo and the peer's
+       address occur nowhere else: they have no bearing on a validity window;
+     - completeness: strictly inside all windows it is accepted — for a message all of whose confirmations are
+       bearer, whose Addresses (when present) are IPv4/IPv6 texts naming the peer the application reports (when it
+       reports one), and whose Recipient is an endpoint of the SP when the application gives conversation info. *)
+Definition dconfs (x : dinput) : list (option window * decor) := zipd (m_confirmations (xm (d_x x))) (d_decor x).
+
+Definition confirms (n k : Z) (c : option window * decor) : Prop :=
+  match k_method (snd c) with
+  | MBearer => match fst c with Some w => w_inside n k w | None => False end
+  | MHolderOfKey | MSenderVouches => True
+  | MOther => False
+  end.
+
+Definition bearer_bounds (n k : Z) (c : option window * decor) : Prop :=
+  match k_method (snd c), fst c with
+  | MBearer, Some w => lower_ok n k (fst w) /\ upper_ok n k (snd w)
+  | _, _ => True
+  end.
+
+Definition dsound (x : dinput) (v : verdict) : Prop :=
+  match v with
+  | Reject => True
+  | Accept reported =>
+      let m := xm (d_x x) in
+      let n := xnow (d_x x) in
+      let k := xskew (d_x x) in
+      (forall s, In s (m_statements m) -> upper_ok n k s)
+      /\ (forall w, m_conditions m = Some w -> w_inside n k w)
+      /\ (forall c, In c (dconfs x) -> bearer_bounds n k c)
+      /\ (exists c, In c (dconfs x) /\ confirms n k c)
+      /\ Z.abs (sec (m_issue m) - n) <= 86400 + k
+      /\ xexpiry_ok m reported
+  end.
+
+Definition names_peer (r : remote) (a : address) : Prop :=
+  match r, a with
+  | RAddr j, AWell i => i = j
+  | _, AMal _ => False
+  | _, _ => True
+  end.
+
+Definition dstrictly_inside (x : dinput) : Prop :=
+  xstrictly_inside (d_x x)
+  /\ (forall c, In c (dconfs x) -> k_method (snd c) = MBearer /\ names_peer (d_remote x) (k_address (snd c)))
+  /\ (d_remote x = RNone \/ d_served x = true).
+
+Definition dspec (x : dinput) (v : verdict) : Prop :=
+  dsound x v /\ (dstrictly_inside x -> v <> Reject).
+
+(* boolean versions *)
+Definition confirms_b (n k : Z) (c : option window * decor) : bool :=
+  match k_method (snd c) with
+  | MBearer => match fst c with Some w => w_inside_b n k w | None => false end
+  | MHolderOfKey | MSenderVouches => true
+  | MOther => false
+  end.
+
+Definition bearer_bounds_b (n k : Z) (c : option window * decor) : bool :=
+  match k_method (snd c), fst c with
+  | MBearer, Some w => lower_ok_b n k (fst w) && upper_ok_b n k (snd w)
+  | _, _ => true
+  end.
+
+Definition dsound_b (x : dinput) (v : verdict) : bool :=
+  match v with
+  | Reject => true
+  | Accept reported =>
+      let m := xm (d_x x) in
+      let n := xnow (d_x x) in
+      let k := xskew (d_x x) in
+      forallb (upper_ok_b n k) (m_statements m)
+      && match m_conditions m with Some w => w_inside_b n k w | None => true end
+      && forallb (bearer_bounds_b n k) (dconfs x)
+      && existsb (confirms_b n k) (dconfs x)
+      && (Z.abs (sec (m_issue m) - n) <=? 86400 + k)
+      && xexpiry_ok_b m reported
+  end.
+
+Definition names_peer_b (r : remote) (a : address) : bool :=
+  match r, a with
+  | RAddr j, AWell i => i =? j
+  | _, AMal _ => false
+  | _, _ => true
+  end.
+
+Definition is_bearer (m : method) : bool := match m with MBearer => true | _ => false end.
+
+Definition dstrictly_inside_b (x : dinput) : bool :=
+  xstrictly_inside_b (d_x x)
+  && forallb (fun c => is_bearer (k_method (snd c)) && names_peer_b (d_remote x) (k_address (snd c))) (dconfs x)
+  && (match d_remote x with RNone => true | _ => false end || d_served x).
+
+Definition dspec_b (x : dinput) (v : verdict) : bool :=
+  dsound_b x v && (negb (dstrictly_inside_b x) || match v with Reject => false | Accept _ => true end).
